@@ -50,7 +50,7 @@ class Task:
 
 
 def scenario(ctx, j):
-    """j: dict(clock='sys'|'tempo'|'app', raises=bitmask, resched=bool, third=0 none|1 clear|2 sched_abs|3 tempo,
+    """j: dict(clock='sys'|'tempo'|'app', raises=bitmask, resched=bool, third=0 none|1 clear|2 sched_abs|3 tempo|4 etempo|5 the same task scheduled again,
     jitter=bool)"""
     kind = j['clock']
     sim = cosim.Sim(ctx, jitter=j.get('jitter', False), max_events=j.get('max_events', 22),
@@ -95,12 +95,20 @@ def scenario(ctx, j):
                     base = world.now
                 else:
                     base = clock.seconds
+                item = t.call
+                if j['third'] == 5 and i == 1:
+                    # an awakeable object (like a routine): the clock queue identifies it, a plain function would be
+                    # wrapped afresh by every sched call
+                    from sc3.base import functions as fn
+                    if not hasattr(t, 'obj'):
+                        t.obj = fn.Function(t.call)
+                    item = t.obj
                 if absolute:
                     when = base + d[i]
-                    clock.sched_abs(when, t.call)
+                    clock.sched_abs(when, item)
                 else:
                     when = base + d[i]
-                    clock.sched(d[i], t.call)
+                    clock.sched(d[i], item)
                 t.sched.append((when, world.now, next(seq)))
             return act
         s.foreign('sched f0', mk_sched(0))
@@ -124,8 +132,27 @@ def scenario(ctx, j):
                     clock.etempo(T2)        # from a foreign thread logical == physical time: same change instant
                 tempo_changes.append((world.now, b0, T2))
             s.foreign('tempo change' if third == 3 else 'etempo change', change)
+        elif third == 5:
+            # the same task object is scheduled again (possibly while its first scheduling is still pending: the
+            # clock queue then holds ONE entry for it, moved to the new time)
+            def again(world):
+                t = tasks[1]
+                base = clock.beats if kind == 'tempo' else (world.now if kind == 'app' else clock.seconds)
+                t.replaced = bool(t.sched) and not t.wakes
+                from sc3.base import functions as fn
+                if not hasattr(t, 'obj'):
+                    t.obj = fn.Function(t.call)
+                clock.sched(d[2], t.obj)
+                t.sched.append((base + d[2], world.now, next(seq)))
+            s.foreign('sched f1 again', again)
         try:
-            s.run(clock)
+            try:
+                s.run(clock)
+            except (PathAbort, Inconclusive, Violation, cosim.EndPath):
+                raise
+            except Exception as e:
+                raise Violation(f'the clock thread died: {type(e).__name__}: {e} (tasks scheduled later are never '
+                                f'awakened)', None, data('thread-died'))
             # ---------------- obligations
             if w.truncated:
                 raise PathAbort('event budget')      # bounded: longer runs are outside this path
@@ -137,9 +164,14 @@ def scenario(ctx, j):
                         raise Violation(f'{t.name} was awakened without being scheduled', None, data('ghost'))
                     continue
                 when, at, sq = t.sched[0]
+                twice = nsched == 2
+                if twice and getattr(t, 'replaced', False):
+                    when, at, sq = t.sched[1]        # the pending entry was moved: one wake-up, at the new time
                 # cancelled by a later clear?
                 cancel = [c for c in cleared_at if c[1] > sq]
                 expect = 1 + (1 if (t.resched is not None and not t.raises) else 0)
+                if twice and not getattr(t, 'replaced', False):
+                    expect += 1
                 if cancel:
                     # awakened before the clear or not at all; never after it
                     for (lg, ph) in t.wakes:
@@ -161,7 +193,7 @@ def scenario(ctx, j):
                 if kind == 'tempo':
                     # scheduled beat -> seconds through the tempo map in force when it was awakened
                     if t.epochs[0] == 0:
-                        due = R(at) + R(d[tasks.index(t)]) / R(T)
+                        due = R(at) + R(d[2] if (twice and getattr(t, 'replaced', False)) else d[tasks.index(t)]) / R(T)
                     else:
                         tc_at, tc_b, tc_T = tempo_changes[0]
                         due = R(tc_at) + (R(when) - R(tc_b)) / R(tc_T)
@@ -178,7 +210,15 @@ def scenario(ctx, j):
                     if zero_jitter:
                         ctx.prove(R(ph) == due, f'{t.name} awakened later than its scheduled time although the '
                                   'clock thread was idle (it waited for an unrelated deadline)', data('late'))
-                if len(t.wakes) == 2:
+                if len(t.wakes) == 2 and twice:
+                    # scheduled again after its first wake-up: the second wake-up belongs to the second scheduling
+                    w2_, a2_, _ = t.sched[1]
+                    lg2, ph2 = t.wakes[1]
+                    due2 = (R(a2_) + R(d[2]) / R(T)) if kind == 'tempo' else R(w2_)
+                    ctx.prove(R(ph2) >= due2, f'{t.name} (scheduled again) awakened before its time', data('early'))
+                    if zero_jitter and not (kind == 'tempo' and tempo_changes):
+                        ctx.prove(R(ph2) == due2, f'{t.name} (scheduled again) awakened late', data('late'))
+                elif len(t.wakes) == 2:
                     lg2, ph2 = t.wakes[1]
                     if kind == 'app':
                         ctx.prove(R(ph2) >= R(ph) + R(r), 're-scheduled task awakened early', data('resched'))
@@ -198,7 +238,7 @@ def scenario(ctx, j):
             byname = {t.name: t for t in tasks}
             for (n1, k1), (n2, k2) in zip(order, order[1:]):
                 t1, t2 = byname[n1], byname[n2]
-                if k1 > 0 or k2 > 0 or kind == 'app':
+                if k1 > 0 or k2 > 0 or kind == 'app' or len(t1.sched) > 1 or len(t2.sched) > 1:
                     continue
                 w1, a1, s1 = t1.sched[0]
                 w2, a2, s2 = t2.sched[0]
@@ -298,9 +338,13 @@ def replay(rec):
                 return r
         return fn
     fns = [mk(i) for i in range(3)]
+    if j.get('third') == 5:
+        from sc3.base import functions as fn
+        fns[1] = fn.Function(fns[1])
     issued = {}
     when_beats = {}
     change = {}
+    again = {}
     # order of foreign actions and whether they happened while the thread was waiting, from the trace
     labels = [x[1] for x in trace if x[0] == 'foreign']
     if not labels:
@@ -309,40 +353,76 @@ def replay(rec):
     park = None
     if kind == 'app' and rec.get('sub') == 'lost-wakeup':
         park = _park_appclock(clk)
+    def perform(lb):
+        nonlocal clock
+        now = time.time() - t0
+        if lb != 'sched f1 again' and (lb.startswith('sched f') or lb.startswith('sched_abs f')):
+            i = int(lb[-1])
+            issued[i] = now
+            if kind == 'tempo':
+                when_beats[i] = clock.beats + d[i]
+            if lb in zero_beat:
+                when_beats[i] = 0.0
+                clock.sched_abs(0.0, fns[i])
+            elif lb.startswith('sched_abs') and kind != 'app':
+                base = clock.beats if kind == 'tempo' else clock.seconds
+                clock.sched_abs(base + d[i], fns[i])
+            else:
+                clock.sched(d[i], fns[i])
+        elif lb == 'sched f1 again':
+            with lock:
+                pending = 1 in issued and not any(k == 1 for k, _ in log)
+            again['at'], again['pending'] = now, pending
+            d2 = d[2]
+            if pending and _again_is_later(vals, labels, raw):
+                # keep the model's order: the new deadline is not before the one it replaces
+                d2 = max(d2, (issued[1] + d[1] / (T if kind == 'tempo' else 1.0) - now + 0.15) *
+                         (T if kind == 'tempo' else 1.0))
+            clock.sched(d2, fns[1])
+        elif lb == 'clear':
+            clock.clear()
+            issued['clear'] = now
+        elif lb == 'tempo change':
+            change['at'], change['beats'] = now, clock.beats
+            clock.tempo = T2
+        elif lb == 'etempo change':
+            change['at'], change['beats'] = now, clock.beats
+            clock.etempo(T2)
+    # a scheduling that the model places at the very instant the clock was created with delay 0 is "beat exactly 0
+    # on an idle clock": reproduced with sched_abs(0.0) once the clock thread is parked in its wait
+    rest = labels
+    zero_beat = set()
+    if kind == 'tempo':
+        mt = _action_times(vals)
+        for lb_, t_ in zip(labels, mt):
+            if lb_.startswith('sched f') and lb_ != 'sched f1 again' and t_ == g('t0', 0.0) and raw[int(lb_[-1])] == 0:
+                zero_beat.add(lb_)
     try:
-        for lb in labels:
+        for lb in rest:
             time.sleep(gap)
-            now = time.time() - t0
-            if lb.startswith('sched f') or lb.startswith('sched_abs f'):
-                i = int(lb[-1])
-                issued[i] = now
-                if kind == 'tempo':
-                    when_beats[i] = clock.beats + d[i]
-                if lb.startswith('sched_abs') and kind != 'app':
-                    base = clock.beats if kind == 'tempo' else clock.seconds
-                    clock.sched_abs(base + d[i], fns[i])
-                else:
-                    clock.sched(d[i], fns[i])
-            elif lb == 'clear':
-                clock.clear()
-                issued['clear'] = now
-            elif lb == 'tempo change':
-                change['at'], change['beats'] = now, clock.beats
-                clock.tempo = T2
-            elif lb == 'etempo change':
-                change['at'], change['beats'] = now, clock.beats
-                clock.etempo(T2)
+            perform(lb)
         if park:
             park['release']()
         time.sleep(max(d) + r + 1.0)
+        alive = clock._thread is not None and clock._thread.is_alive()
     finally:
         if park:
             park['restore']()
         if kind == 'tempo':
             clock.stop()
     msgs = []
+    if not alive:
+        msgs.append('the clock thread died (tasks scheduled later are never awakened)')
     for i, at in issued.items():
         if i == 'clear':
+            continue
+        if i == 1 and again:
+            # scheduled twice: only the count is checked here (which scheduling a wake-up belongs to is timing)
+            ws = [t for (k, t) in log if k == 1]
+            if len(ws) > 2 or (again.get('pending') and len(ws) > 1):
+                msgs.append(f'f1 awakened {len(ws)} times')
+            if not ws:
+                msgs.append('f1 was never awakened within the horizon')
             continue
         due = at + d[i]
         ws = [t for (k, t) in log if k == i]
@@ -375,6 +455,21 @@ def replay(rec):
         if len(ws) == 2 and kind != 'app' and not tempo_changed and abs(ws[1] - (due + rs)) > 0.2:
             msgs.append(f'f{i} re-scheduled by {rs:.2f}s woke at {ws[1]:.2f}s, expected {due + rs:.2f}s')
     return '; '.join(msgs) or None
+
+
+def _action_times(vals):
+    """model instants of the foreign actions, in order (an action taken at decision go{k} happens at adv{k+1})"""
+    ks = sorted(int(k[2:]) for k, v in vals.items() if k.startswith('go') and k[2:].isdigit() and v == 1)
+    return [float(vals.get(f'adv{k + 1}', 0) or 0) for k in ks]
+
+
+def _again_is_later(vals, labels, raw):
+    """in the model: is the deadline of 'sched f1 again' at or after the deadline of the scheduling it replaces?"""
+    times = _action_times(vals)
+    at = dict(zip(labels, times))
+    if 'sched f1' not in at or 'sched f1 again' not in at:
+        return False
+    return at['sched f1 again'] + raw[2] >= at['sched f1'] + raw[1]
 
 
 def _park_appclock(clk):
@@ -425,7 +520,7 @@ def main(tier, seed):
                               clk.AppClock.sched.__func__, clk.AppClock._tick.__func__, clk.Scheduler])
     jobs = []
     for kind in ('sys', 'tempo', 'app'):
-        thirds = [0, 1, 2] + ([3, 4] if kind == 'tempo' else [])
+        thirds = [0, 1, 2, 5] + ([3, 4] if kind == 'tempo' else [])
         for third in thirds:
             for resched in (0, 1):
                 for raises in ((0, 1, 2) if tier == 'quick' else (0, 1, 2, 3, 4)):
@@ -441,7 +536,7 @@ def main(tier, seed):
     for r in run_jobs('vf.props.c08', 'job', jobs, 'rt'):
         chk.add('schedules', r)
     chk.require_notes('schedules', ['sys', 'tempo', 'app', 'raised', 'rescheduled', 'cleared', 'tempo-changed'])
-    chk.bounds = {'tasks': 3, 'foreign_actions': '2 sched + one of {none, clear, sched_abs, tempo change, etempo change}',
+    chk.bounds = {'tasks': 3, 'foreign_actions': '2 sched + one of {none, clear, sched_abs, tempo change, etempo change, the same task scheduled again}',
                   'reschedules': 1, 'events_per_path': 22, 'clocks': 'SystemClock, one TempoClock (tempo from a grid), '
                   'AppClock, each alone', 'jitter': 'zero-jitter sub-model for the on-time obligations; arbitrary '
                   'wake-up latency for the never-early/exactly-once obligations',
